@@ -5,7 +5,9 @@
 (* blank), Eqpt (A, Z, east / west amplifier settings), Roadms (A, Z, per-degree target) and Service rows.   *)
 (* Expected(wb) is Error when one of the documented sanity rules is violated; otherwise the converted        *)
 (* topology must satisfy the clauses of Conforms (stated on connectivity and on the site each element        *)
-(* belongs to, not on element names) and the request list must satisfy ServiceConforms.  Model(wb) is the    *)
+(* belongs to, not on element names) and the request list must satisfy ServiceConforms.  Expected(wb) and all the   *)
+(* clauses are functions of the workbook alone: what an earlier conversion (of another file, of the same path, with  *)
+(* a region filter) or an earlier Service row did must not show.  Model(wb) is the    *)
 (* topology with the names the documentation describes; B1 checks that it satisfies every clause, so the     *)
 (* clauses are satisfiable and none is vacuous.                                                              *)
 (* Values are decimals m * 10^(-s) in normal form (see Documents.tla); a blank cell is Absent.               *)
@@ -256,7 +258,17 @@ Expected(wb) == IF ErrorKinds(wb) # {} THEN [status |-> "error", kinds |-> Error
 NamedAt(o, c, ty) == IF \E e \in At(o, c) : e.type = ty THEN (CHOOSE e \in At(o, c) : e.type = ty).uid ELSE "?"
 RoadmUid(o, c) == NamedAt(o, c, "Roadm")
 TrxUid(o, c)   == NamedAt(o, c, "Transceiver")
-PathOfRoadms(wb, row) == \A k \in 1..Len(row.path) : row.path[k] \in Cities(wb) /\ EffType(wb, row.path[k]) = "ROADM"
+\* A route list entry is decided when it names a ROADM site, or an in-line amplifier site followed in the list by one
+\* of its two neighbours (the documented way of telling the direction).  The entry of a ROADM site becomes that site's
+\* Roadm element; the entry of an amplifier site becomes the amplifier of THIS request's direction: the line element of
+\* the site that feeds the fibre towards the next listed site - whatever other rows of the sheet said about the site.
+EntryDecided(wb, row, k) ==
+  LET c == row.path[k] IN
+  /\ c \in Cities(wb)
+  /\ \/ EffType(wb, c) = "ROADM"
+     \/ (EffType(wb, c) = "ILA" /\ k < Len(row.path) /\ row.path[k + 1] \in Neigh(wb, c))
+RouteDecided(wb, row) == \A k \in 1..Len(row.path) : EntryDecided(wb, row, k)
+LineToward(o, ix, c, nb) == {x.uid : x \in {e \in At(o, c) : IsLine(e) /\ \E f \in FibersFromTo(ix, c, nb) : ix.succ[e.uid] = {f}}}
 \* one request per row between the named sites' transceivers, with the row's transceiver, mode and direction flag
 RequestEnds(wb, o, row, q, bidir) ==
   /\ q.id = row.id /\ q.source = TrxUid(o, row.src) /\ q.destination = TrxUid(o, row.dst) /\ q.bidir = bidir
@@ -269,10 +281,14 @@ RequestUnits(row, q, tol) ==
   \* dBm -> W is transcendental: the harness reports the observed W back in micro-dBm (-9999 = no power given)
   /\ IF row.power.t = "absent" THEN q.power_udbm = -9999
      ELSE LET want == row.power.m * (10 ^ (6 - row.power.s)) IN q.power_udbm - want <= tol /\ want - q.power_udbm <= tol
-\* a route list naming ROADM sites becomes the names of those sites' Roadm elements, in the order given, every hop
-\* LOOSE when the row says yes or nothing, STRICT otherwise (other kinds of names in a route list are not decided here)
-RequestRoute(wb, o, row, q) ==
-  /\ PathOfRoadms(wb, row) => q.include = [k \in 1..Len(row.path) |-> RoadmUid(o, row.path[k])]
+\* a decided route list becomes the names of the elements above, in the order given, every hop LOOSE when the row
+\* says yes or nothing, STRICT otherwise (route lists with other kinds of names are not decided here)
+RequestRoute(wb, o, ix, row, q) ==
+  /\ RouteDecided(wb, row) =>
+        /\ Len(q.include) = Len(row.path)
+        /\ \A k \in 1..Len(row.path) :
+              IF EffType(wb, row.path[k]) = "ROADM" THEN q.include[k] = RoadmUid(o, row.path[k])
+              ELSE q.include[k] \in LineToward(o, ix, row.path[k], row.path[k + 1])
   /\ \A k \in 1..Len(q.hops) : q.hops[k] = (IF row.loose \in {"", "yes", "Yes", "YES"} THEN "LOOSE" ELSE "STRICT")
   /\ Len(q.hops) = Len(q.include)
 \* one synchronisation vector per row with a 'disjoint from' entry: the row's id followed by the ids it names
@@ -282,9 +298,10 @@ SyncConforms(wb, obs) ==
   /\ \A k \in 1..Len(withsync) : obs.sync[k] = [id |-> withsync[k].id, ids |-> <<withsync[k].id>> \o withsync[k].disjoint]
 ServiceFailing(wb, o, obs, bidir, tol) ==
   IF Len(obs.reqs) # Len(wb.services) THEN {"OneRequestPerRow"}
-  ELSE (IF \E k \in 1..Len(wb.services) : ~RequestEnds(wb, o, wb.services[k], obs.reqs[k], bidir) THEN {"RequestEnds"} ELSE {})
+  ELSE LET ix == Index(o) IN
+       (IF \E k \in 1..Len(wb.services) : ~RequestEnds(wb, o, wb.services[k], obs.reqs[k], bidir) THEN {"RequestEnds"} ELSE {})
        \cup (IF \E k \in 1..Len(wb.services) : ~RequestUnits(wb.services[k], obs.reqs[k], tol) THEN {"RequestUnits"} ELSE {})
-       \cup (IF \E k \in 1..Len(wb.services) : ~RequestRoute(wb, o, wb.services[k], obs.reqs[k]) THEN {"RequestRoute"} ELSE {})
+       \cup (IF \E k \in 1..Len(wb.services) : ~RequestRoute(wb, o, ix, wb.services[k], obs.reqs[k]) THEN {"RequestRoute"} ELSE {})
        \cup (IF ~SyncConforms(wb, obs) THEN {"DisjunctionPerEntry"} ELSE {})
 ServiceConforms(wb, o, obs, bidir, tol) == ServiceFailing(wb, o, obs, bidir, tol) = {}
 ==============================================================================
